@@ -55,6 +55,9 @@ def gen_ops(rng, disk_names, nops, uni_weight, incoherent):
     for _ in range(nops):
         r = rng.random()
         name = rng.choice(NAMES)
+        if rng.random() < 0.03 * uni_weight:
+            ops.append(["reload", name, gen_rec(rng, name, incoherent)])
+            continue
         if r < 0.10:
             ops.append(["get", name])
         elif r < 0.22:
@@ -85,8 +88,13 @@ def gen_ops(rng, disk_names, nops, uni_weight, incoherent):
             ops.append(["setWidth", name, rng.choice([100, 250, 640])])
         elif r < 0.87:
             ops.append(["readOutline", name])
-        elif r < 0.93:
+        elif r < 0.91:
             ops.append(["save"])
+        elif r < 0.94:
+            # another program rewrites the glyph's file (new unicodes, components, image, outline) and the layer is told
+            # to reload it; where there is no file to rewrite (memory-only twin, glyph not saved yet) the same content is
+            # assigned in memory
+            ops.append(["reload", name, gen_rec(rng, name, incoherent)])
         else:
             ops.append(["touchUni"])
             touched = True
@@ -132,6 +140,11 @@ def enc_op(op):
         return [Atom("edit"), op[1], list(op[2]), opt(op[3]), ol, of]
     if k in ("save", "touchUni"):
         return [Atom(k)]
+    if k == "reload":
+        rec = op[2]
+        ol, of = kind_flags(rec["kind"])
+        return [Atom("seq"), [Atom("get"), op[1]], [Atom("setUnicodes"), op[1], list(rec["unicodes"])],
+                [Atom("edit"), op[1], list(rec["comps"]), opt(rec["image"]), ol, of]]
     if k == "readOutline":
         return [Atom("get"), op[1]]
     if k == "setWidth":
@@ -208,6 +221,26 @@ def write_ufo(path, disk):
     w.close()
 
 
+def write_one_glif(glyphs_dir, name, rec):
+    """another program rewrites the file of a glyph that the glyph set lists (ufoLib only; contents.plist untouched)"""
+    from fontTools.ufoLib.glifLib import GlyphSet
+    gs = GlyphSet(glyphs_dir)
+    g = _G()
+    g.width = 500
+    g.unicodes = list(rec["unicodes"])
+    if rec["image"] is not None:
+        g.image = image_dict(rec["image"])
+        del g.image["color"]
+
+    def draw(pen):
+        draw_kind(pen, rec["kind"])
+        for b in rec["comps"]:
+            pen.addComponent(b, (1, 0, 0, 1, 0, 0))
+    assert name in gs.contents
+    gs.writeGlyph(name, g, draw)
+    gs.close() if hasattr(gs, "close") else None
+
+
 def apply_rec(glyph, rec, with_unicodes=True):
     if with_unicodes:
         glyph.unicodes = list(rec["unicodes"])
@@ -227,6 +260,7 @@ class Impl(object):
         self.tmpd = tmpd
         self.keep = []          # keep every object alive
         self.unilists = {}
+        self.reloaded = 0
         self.touched = False
         self.case = case
         if case["variant"] == "memory":
@@ -304,6 +338,20 @@ class Impl(object):
                 g = layer[op[1]]
                 self.keep.append(g)
                 g.width = op[2]
+            elif k == "reload":
+                g = layer[op[1]]
+                self.keep.append(g)
+                rec = op[2]
+                gs = layer._glyphSet
+                if self.font.path is not None and gs is not None and op[1] in gs.contents and os.path.isdir(self.font.path):
+                    write_one_glif(os.path.join(self.font.path, "glyphs"), op[1], rec)
+                    layer.reloadGlyphs([op[1]])
+                    self.reloaded += 1
+                else:
+                    g.unicodes = list(rec["unicodes"])
+                    apply_rec(g, rec, with_unicodes=False)
+                    g.width = 500
+                    g.dirty = True
             elif k == "readOutline":
                 g = layer[op[1]]
                 self.keep.append(g)
@@ -364,6 +412,10 @@ class Shadow(object):
             if op[1] not in g:
                 return False
             g[op[1]] = dict(g[op[1]], width=op[2])
+        elif k == "reload":
+            if op[1] not in g:
+                return False
+            g[op[1]] = dict(op[2], width=500)
         elif k == "readOutline":
             return op[1] in g
         elif k == "touchUni":
@@ -524,7 +576,7 @@ def run_case(case, prop, judged):
                     break
         stats["uni_checked_steps"] = uni_checked
         stats["len"] = len(case["ops"])
-        nontrivial = any(o[0] in ("delete", "rename", "new", "insert", "setUnicodes", "edit", "setWidth") for o in case["ops"]) and len(case["disk"]) > 0
+        nontrivial = any(o[0] in ("delete", "rename", "new", "insert", "setUnicodes", "edit", "setWidth", "reload") for o in case["ops"]) and len(case["disk"]) > 0
         return dict(out=outs, viol=viol, info=dict(nontrivial=nontrivial, stats=stats))
     finally:
         shutil.rmtree(tmpd, ignore_errors=True)
